@@ -79,6 +79,7 @@ pub fn e1() -> Vec<String> {
 
 thread_local! {
     static POOL: std::cell::RefCell<Option<Pool>> = std::cell::RefCell::new(None);
+    static POOL_FULL: std::cell::RefCell<Option<Pool>> = std::cell::RefCell::new(None);
 }
 
 fn key_for(expr: &str) -> String {
@@ -157,7 +158,8 @@ pub fn check_expr(src: &str, pool: &Pool, sub: &str, st: &mut Stats) {
 }
 
 fn with_pool<T>(full: bool, f: impl FnOnce(&Pool) -> T) -> T {
-    POOL.with(|p| {
+    let cell = if full { &POOL_FULL } else { &POOL };
+    cell.with(|p| {
         let mut b = p.borrow_mut();
         if b.is_none() {
             *b = Some(Pool::new(if full { pool_full() } else { pool_quick() }));
@@ -183,16 +185,16 @@ pub fn run(tier: Tier) -> i32 {
             with_pool(full, |pool| check_expr(&alpha.render(&seq), pool, "core-sentences", &mut st));
         }
     }
+    // thorough: sentences up to l-1 tokens on the full pool (core + D(1,2)), the longest ones on the core pool --
+    // the full product at length l would be 10^10 reference evaluations
     let sa = par_sweep(shards(alpha.len(), 2), |p, st| {
-        let mut list: Vec<String> = Vec::new();
-        let (nodes, edges) = sentences(&G, &alpha, p, l, &mut |seq| list.push(alpha.render(seq)));
+        let mut list: Vec<(String, usize)> = Vec::new();
+        let (nodes, edges) = sentences(&G, &alpha, p, l, &mut |seq| list.push((alpha.render(seq), seq.len())));
         st.count("prefix_tree_nodes", nodes);
         st.count("prefix_tree_edges", edges);
-        with_pool(full, |pool| {
-            for s in &list {
-                check_expr(s, pool, "core-sentences", st);
-            }
-        });
+        for (s, n) in &list {
+            with_pool(full && *n < l, |pool| check_expr(s, pool, "core-sentences", st));
+        }
     });
     st = st.merge(sa);
     st.count("core_sentences", st.states);
@@ -217,29 +219,44 @@ pub fn run(tier: Tier) -> i32 {
                 }
             } else {
                 for t in BINARY {
-                    for y in &e1v {
+                    for y in &e0v {
                         check_expr(&apply2(t, x, y), pool, "composed-E2", st);
+                        check_expr(&apply2(t, y, x), pool, "composed-E2", st);
                     }
                 }
             }
         });
+        if tier == Tier::Thorough {
+            // E1 x E1 for the productions that nest evaluation contexts, on the core pool
+            with_pool(false, |pool| {
+                let x = &e1v[i];
+                for t in ["X|Y", "X[?Y]", "[X,Y]", "X&&Y"] {
+                    for y in &e1v {
+                        check_expr(&apply2(t, x, y), pool, "composed-E2", st);
+                    }
+                }
+            });
+        }
     });
     st = st.merge(sb1);
     // (c) postfix chains
     let clen = tier.pick(4, 5);
     let ch = chains(clen);
-    let sc = par_sweep(ch.chunks(256).map(|c| c.to_vec()).collect(), |chunk: &Vec<String>, st| {
-        with_pool(full, |pool| {
-            for s in chunk {
-                check_expr(s, pool, "postfix-chains", st);
-            }
-        });
+    // chains() lists the layers in order of length: the last layer (the longest chains) starts here
+    let last_layer_from = ch.len() - BASES.len() * POSTFIX.len().pow(clen as u32);
+    let indexed: Vec<(usize, Vec<String>)> = ch.chunks(256).enumerate().map(|(i, c)| (i * 256, c.to_vec())).collect();
+    let sc = par_sweep(indexed, |(start, chunk): &(usize, Vec<String>), st| {
+        for (k, s) in chunk.iter().enumerate() {
+            // thorough: the longest chains on the core pool, shorter ones on the full pool
+            let longest = start + k >= last_layer_from;
+            with_pool(full && !longest, |pool| check_expr(s, pool, "postfix-chains", st));
+        }
     });
     st = st.merge(sc);
     rep.guard("some expressions yield non-null results", st.nontrivial > 100);
     rep.guard("more than 1000 expressions explored", st.states > 1000);
     rep.rule = "(a) every sentence of the grammar over the core token alphabet up to the length bound (DFS over viable prefixes) and (b) every composed expression E1 = production(E0,E0), E2 = production(E1, E0|E1); each expression is searched on every document of the pool by the implementation and by the reference interpreter R-eval(R-parse(e), d). states = expressions, transitions = (expression, document) pairs; non-trivial = the expression has a non-null result on at least one document".into();
-    rep.bounds = json!({"sentence_len": l, "alphabet": alpha.texts, "documents": if full { pool_full().len() } else { pool_quick().len() }, "postfix_chain_len": clen, "postfix": POSTFIX, "bases": BASES, "E0": e0v, "unary": UNARY, "binary": BINARY, "E2": if full {"E1 x E1 for binary productions"} else {"E1 x E0 and E0 x E1 for binary productions"}});
+    rep.bounds = json!({"sentence_len": l, "alphabet": alpha.texts, "documents": if full { pool_full().len() } else { pool_quick().len() }, "postfix_chain_len": clen, "postfix": POSTFIX, "bases": BASES, "E0": e0v, "unary": UNARY, "binary": BINARY, "E2": if full {"E1 x E0 and E0 x E1 for all binary productions on the full pool; E1 x E1 for | [?] [,] && on the core pool"} else {"E1 x E0 and E0 x E1 for binary productions"}, "thorough_pools": "sentences of the longest length and the longest postfix chains use the core pool, everything shorter the full pool"});
     rep.assumptions = vec![
         "reference semantics = DESIGN Appendix A, bound to the compliance fixtures at check start".into(),
         "a step-0 slice applied to a non-array may be an error or null".into(),
